@@ -90,7 +90,8 @@ Lemma eval_node_op s acc nd op cs :
   eval_node s acc nd = op_val op (map (fun c => nth c acc false) cs).
 Proof. destruct nd; cbn; intros H; inversion H; reflexivity. Qed.
 
-(* any assignment satisfying the biconditionals gives every node's literal the node's value *)
+(* any assignment satisfying the biconditionals gives every node's literal the node's value;
+   a constant / childless operation is the empty operation: its biconditional fixes its variable *)
 Lemma literal_is_value (C : circuit) (n : nat) (st : tstate) (b : asg) :
   idx_ok C = true -> Shape n C st -> Nodes C st ->
   (forall bc, In bc (ts_bics st) -> bic_holds b bc = true) ->
@@ -99,27 +100,20 @@ Proof.
   intros Hok HS HN Hb.
   apply (idx_induction C (fun j => lit_true b (Lt st j) = nth j (evals b C) false) Hok).
   intros j Hj IH. rewrite (evals_unfold C Hok j Hj).
-  destruct (nd_node C st HN j Hj) as [H1 [H2 [H3 H4]]].
-  destruct (nth j C FalseN) as [l|cs|cs| |] eqn:E; try congruence.
-  - now rewrite (H1 l eq_refl).
-  - assert (Hop : node_op (And cs) = Some (OpAnd, cs)) by reflexivity.
-    destruct (H4 OpAnd cs Hop) as [Hne [Hs Hm]].
+  destruct (nd_node C st HN j Hj) as [H1 H4].
+  destruct (node_op (nth j C FalseN)) as [[op cs]|] eqn:Hop.
+  - destruct (H4 op cs eq_refl) as [Hs Hm].
     rewrite (eval_node_op b _ _ _ _ Hop).
-    destruct cs as [|c1 [|c2 cs]]; [congruence| |].
-    + rewrite (Hs c1 eq_refl), IH by now left. cbn. now rewrite andb_true_r.
-    + specialize (Hm ltac:(cbn; lia)). pose proof (Hb _ Hm) as Hh.
+    rewrite (node_op_children _ _ _ Hop) in IH.
+    destruct (Nat.eq_dec (length cs) 1) as [E1|E1].
+    + destruct cs as [|c1 [|c2 cs]]; cbn [length] in E1; try lia.
+      rewrite (Hs c1 eq_refl), IH by now left. destruct op; cbn; [now rewrite andb_true_r|now rewrite orb_false_r].
+    + specialize (Hm E1). pose proof (Hb _ Hm) as Hh.
       destruct (sh_bic n C st HS _ Hm) as [_ [Hi _]]. cbn [b_index] in Hi.
       unfold bic_holds, bic_val in Hh. cbn [b_index b_op b_lits] in Hh. apply eqb_prop in Hh.
       rewrite lit_true_pos by lia. rewrite Hh, map_map. f_equal. apply map_ext_in. intros c Hc. now apply IH.
-  - assert (Hop : node_op (Or cs) = Some (OpOr, cs)) by reflexivity.
-    destruct (H4 OpOr cs Hop) as [Hne [Hs Hm]].
-    rewrite (eval_node_op b _ _ _ _ Hop).
-    destruct cs as [|c1 [|c2 cs]]; [congruence| |].
-    + rewrite (Hs c1 eq_refl), IH by now left. cbn. now rewrite orb_false_r.
-    + specialize (Hm ltac:(cbn; lia)). pose proof (Hb _ Hm) as Hh.
-      destruct (sh_bic n C st HS _ Hm) as [_ [Hi _]]. cbn [b_index] in Hi.
-      unfold bic_holds, bic_val in Hh. cbn [b_index b_op b_lits] in Hh. apply eqb_prop in Hh.
-      rewrite lit_true_pos by lia. rewrite Hh, map_map. f_equal. apply map_ext_in. intros c Hc. now apply IH.
+  - destruct (nth j C FalseN) as [l|cs|cs| |] eqn:E; cbn [node_op] in Hop; try discriminate.
+    now rewrite (H1 l eq_refl).
 Qed.
 
 (* the value of a circuit depends only on the variables of its leaves *)
